@@ -423,3 +423,51 @@ def _view_op(rng, d, kind, fin, al):
         cands = [q for q in qs if not op["hasLo"] or frac(q) > frac(op["qlo"])]
         op["hasHi"], op["qhi"] = True, rng.choice(cands)
     return op
+
+
+# ------------------------------------------------------------------------------------------------
+# C08: scaling reloaded containers
+def ops_scale_reloaded(rng, d):
+    """scale a container reloaded from JSON (also while it is still empty), then merge / re-serialise / compare with
+    scaling before the round trip"""
+    al = DR.Alphabet(d)
+    ops = [{"op": "New", "s": 1, "d": d}]
+    for _ in range(rng.choice([0, 0, 1, 3])):
+        x = al.datum(rng)
+        if rng.random() < 0.4:
+            x["x"] = NAN  # only the nanflow gets filled: sparse containers stay without bins
+        ops.append({"op": "Fill", "s": 1, "x": x, "w": rng.choice(DR.POSWEIGHTS)})
+    ops.append({"op": "Reload", "t": 2, "a": 1, "via": rng.choice(["dict", "string"])})
+    f = rng.choice(DR.FACTORS)
+    ops.append({"op": "Mul", "t": 3, "a": 2, "f": f, "side": rng.choice("lr")})
+    ops.append({"op": "Read", "a": 3, "which": "toJson"})
+    ops.append({"op": "Mul", "t": 4, "a": 1, "f": f, "side": "l"})
+    ops.append({"op": "Reload", "t": 4, "a": 4, "via": "dict"})      # scaling commutes with the round trip
+    ops.append({"op": "Eq", "a": 3, "b": 4, "must": False})
+    ops.append({"op": "Add", "t": 4, "a": 3, "b": 2})
+    ops.append({"op": "Add", "t": 4, "a": 2, "b": 3})
+    ops.append({"op": "Reload", "t": 4, "a": 3, "via": "dict"})
+    return ops, 4
+
+
+# ------------------------------------------------------------------------------------------------
+# C09: pairs that differ in exactly one child
+def ops_eq_child(rng, d):
+    """two aggregators filled with one datum per routing class of the root (every edge, between edges, outside, NaN,
+    +-inf); in the second, the secondary quantity of exactly ONE of those data is changed, so the pair differs in
+    exactly one child (first / middle / last bin, a flow, one sparse key, one category ...)"""
+    al = DR.Alphabet(d)
+    xs = al.crit_x + [Q(frac(al.crit_x[0]) - 1), Q(frac(al.crit_x[-1]) + 1)] if al.crit_x else [Q(0), Q(1)]
+    xs = xs + [NAN, (1, 0), (-1, 0)]
+    stream = []
+    for i, xv in enumerate(xs):
+        stream.append({"x": xv, "y": Q(1), "s": Q(1), "c": ["a", "b", "entries", "NaN"][i % 4], "fa": "", "fm": ""})
+    ops = [{"op": "New", "s": 1, "d": d}, {"op": "New", "s": 2, "d": d}]
+    j = rng.randrange(len(stream))
+    for i, x in enumerate(stream):
+        ops.append({"op": "Fill", "s": 1, "x": x, "w": Q(1)})
+        x2 = dict(x, y=Q(3)) if i == j else x
+        ops.append({"op": "Fill", "s": 2, "x": x2, "w": Q(1)})
+    ops.append({"op": "Eq", "a": 1, "b": 2, "must": False})
+    ops.append({"op": "Eq", "a": 2, "b": 1, "must": False})
+    return ops, 2
